@@ -99,7 +99,7 @@ func verifyClass(err error) string {
 		return "err-index"
 	case strings.Contains(s, "invalid leaf hash"):
 		return "err-leaf"
-	case strings.Contains(s, "invalid root hash"):
+	case strings.Contains(s, "invalid root hash"), strings.Contains(s, "does not compute a root hash"):
 		return "err-root"
 	}
 	return "err-other:" + s
@@ -117,6 +117,30 @@ func execCase(c core.Case) []string {
 	for _, op := range c.Ops {
 		m := kv(op)
 		switch strings.Fields(op)[0] {
+		case "proposal":
+			// a proposal as it reaches consensus: encoded, decoded (ProposalFromProto validates), ValidateBasic
+			ty, _ := strconv.Atoi(m["type"])
+			h, _ := strconv.ParseInt(m["h"], 10, 64)
+			rd, _ := strconv.ParseInt(m["r"], 10, 32)
+			pol, _ := strconv.ParseInt(m["pol"], 10, 32)
+			t, _ := strconv.Atoi(m["total"])
+			sl, _ := strconv.Atoi(m["siglen"])
+			prop := &types.Proposal{Type: tmproto.SignedMsgType(ty), Height: h, Round: int32(rd), POLRound: int32(pol),
+				BlockID:   types.BlockID{Hash: unhx(m["bh"]), PartSetHeader: types.PartSetHeader{Total: uint32(t), Hash: unhx(m["root"])}},
+				Signature: bytes.Repeat([]byte{7}, sl)}
+			err := prop.ValidateBasic()
+			if pb := prop.ToProto(); pb != nil {
+				if bz, e := proto.Marshal(pb); e == nil {
+					var pb2 tmproto.Proposal
+					if e := proto.Unmarshal(bz, &pb2); e == nil {
+						if _, e2 := types.ProposalFromProto(&pb2); (e2 == nil) != (err == nil) {
+							out = append(out, "DIFF:ProposalFromProto-vs-ValidateBasic")
+							break
+						}
+					}
+				}
+			}
+			out = append(out, proposalClass(err))
 		case "cstate":
 			if cst != nil {
 				cst.Stop()
@@ -444,6 +468,32 @@ func consPart(cst *consensus.VerifPartsState, h int64, rd int32, part *types.Par
 	}
 }
 
+func proposalClass(err error) string {
+	if err == nil {
+		return "ok"
+	}
+	e := err.Error()
+	switch {
+	case strings.Contains(e, "invalid Type"):
+		return "err-type"
+	case strings.Contains(e, "negative Height"):
+		return "err-height"
+	case strings.Contains(e, "negative Round"):
+		return "err-round"
+	case strings.Contains(e, "negative POLRound"):
+		return "err-pol"
+	case strings.Contains(e, "wrong BlockID"):
+		return "err-blockid"
+	case strings.Contains(e, "complete"):
+		return "err-incomplete"
+	case strings.Contains(e, "signature is missing"):
+		return "err-sig-missing"
+	case strings.Contains(e, "signature is too big"):
+		return "err-sig-too-big"
+	}
+	return "err-other:" + e
+}
+
 func toTxs(l [][]byte) types.Txs {
 	t := make(types.Txs, len(l))
 	for i, b := range l {
@@ -484,6 +534,14 @@ func oracle(c core.Case, out []string) []core.Finding {
 			k, _ := strconv.Atoi(m["psize"])
 			pieces = split(data, k)
 			curTotal, curRoot, haveHdr = len(pieces), merkle.HashFromByteSlices(pieces), true
+		case "proposal":
+			if out[i] == "ok" {
+				t, _ := strconv.Atoi(m["total"])
+				if len(unhx(m["root"])) != tmhash.Size || t == 0 || len(unhx(m["bh"])) != tmhash.Size {
+					fs = append(fs, core.Finding{Fingerprint: "proposal.ValidateBasic.accepts-header-committing-to-nothing",
+						Desc: fmt.Sprintf("a proposal with block hash of %d bytes and part-set header (total %d, root of %d bytes) passes validation: consensus builds its part set from a header that commits to no data (a part set without a root accepts any bytes)", len(unhx(m["bh"])), t, len(unhx(m["root"])))})
+				}
+			}
 		case "cstate":
 			cHeight, _ = strconv.ParseInt(m["h"], 10, 64)
 			cMax, _ = strconv.ParseInt(m["max"], 10, 64)
@@ -615,6 +673,10 @@ func oracle(c core.Case, out []string) []core.Finding {
 			genuineHdr = pieces != nil && t == len(pieces) && bytes.Equal(unhx(m["root"]), merkle.HashFromByteSlices(pieces))
 			curTotal, curRoot, haveHdr = t, unhx(m["root"]), true
 		case "add":
+			if out[i] == "added" && haveHdr && len(curRoot) == 0 {
+				fs = append(fs, core.Finding{Fingerprint: "partset.AddPart.accepts-part-under-rootless-header",
+					Desc: fmt.Sprintf("a part set made from a header WITHOUT a root (total %d) accepted bytes %s at slot %s: such a header commits to no data, the proof computed no root hash and nil was taken for the empty root", curTotal, m["bytes"], m["idx"])})
+			}
 			if out[i] == "added" && virtualHdr {
 				fs = append(fs, core.Finding{Fingerprint: "partset.AddPart.accepts-part-under-header-committing-to-no-data",
 					Desc: fmt.Sprintf("AddPart accepted a part with proof (index %s, total %s) at slot %s of a %s-part header whose root is not the root of any tree with that many leaves (it is the root of a virtual tree in which the proof is genuine at an index differing from the slot by a multiple of 2^32)", m["pidx"], m["ptotal"], m["idx"], "header")})
@@ -699,6 +761,10 @@ func oracle(c core.Case, out []string) []core.Finding {
 			}
 		case "verify":
 			// `items` carries the genuine tree this root belongs to (ignored by both executors)
+			if out[i] == "ok" && len(unhx(m["root"])) == 0 {
+				fs = append(fs, core.Finding{Fingerprint: "merkle.Verify.accepts-against-empty-root",
+					Desc: fmt.Sprintf("Proof.Verify accepted leaf %s with (index %s, total %s, %d aunts) against an EMPTY root, which is the root of no tree", m["leaf"], m["pidx"], m["ptotal"], len(unhxList(m["aunts"])))})
+			}
 			if out[i] != "ok" || m["items"] == "" {
 				continue
 			}
@@ -1406,6 +1472,56 @@ func genCons(r *rand.Rand, emit func(core.Case), n int) {
 	}
 }
 
+// genProposal: the gate in front of the part-set header — proposals with complete, rootless,
+// partless, half-sized and zero block ids, bad numeric fields and signature sizes; followed by the
+// part set a node would build from an accepted header being offered shapeless proofs.
+func genProposal(r *rand.Rand, emit func(core.Case), n int) {
+	hs := func() []byte {
+		switch r.Intn(6) {
+		case 0:
+			return []byte{}
+		case 1:
+			return rbytes(r, 1+r.Intn(31))
+		case 2:
+			return rbytes(r, 33)
+		}
+		return rbytes(r, 32)
+	}
+	for c := 0; c < n; c++ {
+		var ops []string
+		for k := 0; k < 6; k++ {
+			ty, h, rd, pol, sl, tot := 32, r.Intn(10), r.Intn(4), r.Intn(4)-1, 64, 1+r.Intn(5)
+			switch r.Intn(12) {
+			case 0:
+				ty = []int{0, 1, 2}[r.Intn(3)]
+			case 1:
+				h = -1
+			case 2:
+				rd = -1
+			case 3:
+				pol = -2
+			case 4:
+				sl = 0
+			case 5:
+				sl = 65
+			case 6:
+				tot = 0
+			}
+			bh, root := hs(), hs()
+			ops = append(ops, fmt.Sprintf("proposal type=%d h=%d r=%d pol=%d bh=%s total=%d root=%s siglen=%d", ty, h, rd, pol, hx(bh), tot, hx(root), sl))
+			if r.Intn(3) == 0 { // what a part set built from that header does with a shapeless proof
+				b := rbytes(r, 1+r.Intn(8))
+				p := merkle.Proof{Total: int64(tot), Index: 0, LeafHash: leafHashOf(b), Aunts: [][]byte{rbytes(r, 32), rbytes(r, 32), rbytes(r, 32), rbytes(r, 32), rbytes(r, 32), rbytes(r, 32), rbytes(r, 32)}}
+				if tot == 1 {
+					p.Aunts = p.Aunts[:1]
+				}
+				ops = append(ops, fmt.Sprintf("hdr total=%d root=%s", tot, hx(root)), addOp(0, b, p), "done")
+			}
+		}
+		emit(core.Case{Kind: "proposal-gate", Ops: ops})
+	}
+}
+
 func main() {
 	core.Main(core.Prop{
 		ID:     "C10",
@@ -1423,6 +1539,7 @@ func main() {
 			genVirtual(r, emit, n/8)
 			genLeaves(r, emit, n/2)
 			genCons(r, emit, n/2)
+			genProposal(r, emit, n/4)
 		},
 		Exec:   execCase,
 		Oracle: oracle,
